@@ -112,7 +112,7 @@ def parseContent (s : String) : Option DContent :=
   | "C" => rest.toNat?.map .chunk
   | "S" =>
     match rest.splitOn "." with
-    | [o, n, v] => do pure (.pad (← o.toNat?) (← n.toNat?) (v == "v"))
+    | [o, n, v] => do pure (.pad (← o.toNat?) (← n.toNat?) (v == "v" || v == "d"))
     | _ => none
   | "T" => if rest = "-" then some (.txs []) else ((rest.splitOn ",").mapM parseTx).map .txs
   | "R" =>
